@@ -22,6 +22,7 @@ fn main() {
         "serialize_repeat" => serialize_repeat(&input),
         "literal_exact" => literal_exact(&input),
         "name_spelling" => name_spelling(&input),
+        "simplify_value" => simplify_value(&input),
         other => {
             eprintln!("unknown replay kind {other}");
             std::process::exit(64);
@@ -198,6 +199,60 @@ fn name_spelling(text: &str) -> Result<(), String> {
                 }
             }
         }
+    }
+    Ok(())
+}
+
+/// C12: each input line is an expression; its simplified form must evaluate to the same (finite) value at a few
+/// generic assignments, must not mention new variables / memory references, and must not be the constant pi
+fn simplify_value(text: &str) -> Result<(), String> {
+    use quil_rs::expression::Expression;
+    use std::collections::{HashMap, HashSet};
+    let assignments: [[(f64, f64); 4]; 3] = [
+        [(1.3, 0.2), (2.1, -0.4), (-0.7, 0.0), (0.45, 1.1)],
+        [(0.0, 0.0), (0.3, 0.0), (1.9, 0.0), (4.0, 0.0)],
+        [(0.9, -1.7), (-3.2, 0.6), (0.01, 0.0), (7.5, -0.3)],
+    ];
+    let names = ["x", "y", "z", "w"];
+    for line in text.lines().filter(|l| !l.trim().is_empty()) {
+        let original = Expression::from_str(line).map_err(|e| format!("`{line}` does not parse: {e}"))?;
+        let simplified = original.clone().into_simplified();
+        if matches!(simplified, Expression::PiConstant()) {
+            return Err(format!("`{line}` simplified to the symbolic constant pi"));
+        }
+        let refs_before: HashSet<_> = original.memory_references().cloned().collect();
+        for r in simplified.memory_references() {
+            if !refs_before.contains(r) {
+                return Err(format!("`{line}`: simplification introduced memory reference {r:?}"));
+            }
+        }
+        for a in assignments.iter() {
+            let mut vars: HashMap<String, num_complex::Complex64> = HashMap::new();
+            for (n, (re, im)) in names.iter().zip(a.iter()) {
+                vars.insert((*n).to_string(), num_complex::Complex64::new(*re, *im));
+            }
+            let mem: HashMap<&str, Vec<f64>> = HashMap::from([("m", vec![0.75, -1.25])]);
+            let before = original.evaluate(&vars, &mem);
+            let after = simplified.evaluate(&vars, &mem);
+            if let Ok(b) = before {
+                if !(b.re.is_finite() && b.im.is_finite()) {
+                    continue;
+                }
+                match after {
+                    Ok(s) => {
+                        let tol = 1e-9 * (1.0 + b.norm());
+                        if (b - s).norm() > tol {
+                            return Err(format!(
+                                "`{line}` evaluates to {b} but its simplified form to {s} at x={:?}, y={:?}, z={:?}, w={:?}",
+                                a[0], a[1], a[2], a[3]
+                            ));
+                        }
+                    }
+                    Err(e) => return Err(format!("`{line}`: the simplified form does not evaluate: {e:?}")),
+                }
+            }
+        }
+        println!("{line}  ok");
     }
     Ok(())
 }
